@@ -202,6 +202,40 @@ def r142(rep: Report, ctx: Ctx) -> None:
            "defaults", ok and defaulted == ["previousEventIds"], fi=ld,
            node=sets[0] if sets else ld.node,
            detail=f"model defaults {defaulted}")
+    # the loader rejects a record only for a *missing key*: the saver writes
+    # every value unchanged (R14.3), the empty string included, so a
+    # rejection that depends on a value makes the file route fail where the
+    # in-memory route succeeds
+    lcfg, lreach = ctx.cfg(ld), ctx.reach(ld)
+    pvp = ld.params()[0]
+    raises = [n for n in ast.walk(ld.node) if isinstance(n, ast.Raise)]
+    for r in raises:
+        bad = []
+        for test, _sense in lcfg.controlling(lcfg.node(r)):
+            t = lreach.resolve_deep(test, at=test)
+            parents = {c: p for p in ast.walk(t)
+                       for c in ast.iter_child_nodes(p)}
+            for n in ast.walk(t):
+                if isinstance(n, ast.Name) and n.id == pvp:
+                    par = parents.get(n)
+                    if isinstance(par, ast.Attribute) and par.attr == "keys":
+                        continue
+                    if isinstance(par, ast.Compare) and n in par.comparators \
+                            and isinstance(par.ops[0], (ast.In, ast.NotIn)):
+                        continue
+                    if isinstance(par, ast.Call) and dotted(par.func) in (
+                            "set", "frozenset", "list", "sorted", "len"):
+                        continue
+                    if isinstance(par, ast.comprehension) and par.iter is n:
+                        continue
+                    bad.append(unparse(par if par is not None else n))
+        rep.ob("R14.2", "a record is rejected only for a missing key", not bad,
+               fi=ld, node=r,
+               detail=("rejection depends on " + ", ".join(sorted(set(bad)))
+                       + " -- a value the saver legitimately wrote (e.g. an "
+                       "empty application name) makes pv2puml fail on files "
+                       "otel2pv produced") if bad else
+               "the raise is controlled by key-presence tests only")
     # saver renames every key
     sv = ctx.func("save_pv_event_stream_to_file")
     dcs = [d for d in ast.walk(sv.node) if isinstance(d, ast.DictComp)]
